@@ -50,8 +50,8 @@ theorem c24_single_writer (s : State) (hr : Reachable s) :
     intro hpb
     exact other_page_ne s hown i j a b hij ha hb q hc q hpb rfl
 
--- two handles, both in the middle of `allocate` (after the load), on different pages; handle 1
--- got the page handle 0's first clone returned to `non_full_pages`.
+-- two handles, both in the middle of `allocate` (after the load), on different pages; handle 2
+-- took the page that handle 1 (dropped) returned to `non_full_pages`.
 example : ∃ s, Reachable s ∧ s.handles.length = 3 ∧
     (getH s 0).pc = .loaded 0 1 ∧ (getH s 2).pc = .loaded 1 0 ∧ s.nonFull = [] ∧ occ s 0 = 1 ∧ occ s 1 = 1 :=
   ⟨_, ⟨[.push 0 7 0, .load 0 0 0, .write 0 0 0 41, .store 0 0 1, .cloneHandle 0, .cloneHandle 0,
